@@ -201,6 +201,9 @@ def lift_cases(tier):
                     for sp in ('err',) if big else ('err', 'blank', 'text', 'log'):
                         if sp != 'blank' or amode(mode, a) == 'rng':
                             yield ['lift', name, sn, mode, [a, sp]]
+                # the result stored into a destination one row and one column larger: #N/A beyond the common extent of ALL arguments
+                if len(kinds) > 1 and mode == 'lit' and not big:
+                    yield ['lift', name, sn, mode, None, 'pad']
                 # two different errors in two arguments: which one wins is decided element by element
                 if not big:
                     for a in range(len(kinds)):
@@ -211,23 +214,34 @@ def lift_cases(tier):
 
 def run_lift(case):
     from xl.evalcell import eval_formula
-    _, name, sn, mode, var = case
+    _, name, sn, mode, var = case[:5]
+    pad = len(case) > 5
     kinds, shps = ALLKINDS[name], [L.parse_shape(s) for s in sn]
     spec = lambda k: None if not var else var[1] if var[0] == k else var[3] if len(var) > 2 and var[2] == k else None
     args = [value(kd, k, s, spec(k)) for k, (kd, s) in enumerate(zip(kinds, shps))]
     tpl, inputs = template(name), {}
     txt = tpl % tuple(spell(v, k, mode, inputs, wrap=True) for k, v in enumerate(args))
     rs = L.broadcast_shape(shps)
-    got = eval_formula(txt, inputs, ref=dest(rs), scalar=False)
     exp = as_matrix(L.lift(lambda *e: scalar_eval(tpl, mode, e), args))
+    if pad:
+        if rs == 'S':
+            return result(0, ['skip:scalar-result-fills'])
+        got = eval_formula(txt, inputs, ref=dest((rs[0] + 1, rs[1] + 1)), scalar=False)
+        exp = L.fit(exp, rs[0] + 1, rs[1] + 1)
+    else:
+        got = eval_formula(txt, inputs, ref=dest(rs), scalar=False)
     execs = 1 + len(exp) * len(exp[0])
     if has_bad(exp):   # the scalar rule itself escaped: C11's subject, nothing to lift
         return result(execs, ['lift:%s:scalar-escape' % name])
     fails = []
-    if not same(got, exp):
+    alt = None
+    if pad and name.startswith('IS'):
+        fna = scalar_eval(tpl, 'lit', tuple([NAV] * len(kinds)))
+        alt = [[fna if (i >= rs[0] or j >= rs[1]) else None for j in range(rs[1] + 1)] for i in range(rs[0] + 1)]
+    if not same(got, exp, alt):
         cls = 'lift-escape' if isinstance(got, tuple) else 'lift-wrong'
         fails.append(Fail(cls, got=got, exp=exp, fn=name, shapes='|'.join(sn), classes='|'.join(L.shape_class(s) for s in shps),
-                          result=L.shape_name(rs), mode=mode, variant='base' if not var else var[1] if len(var) < 3 else 'err+na',
+                          result=L.shape_name(rs), mode=mode, variant=('pad' if pad else 'base') if not var else var[1] if len(var) < 3 else 'err+na',
                           varg=None if not var else var[0], formula=txt))
     return result(execs, outcome('lift', name, got), fails)
 
@@ -477,9 +491,63 @@ def run_mixed(case):
     return result(1 + n, outcome('mixed', op, got), fails)
 
 
+# ---- space 6: one range with a blank, text, logical, error read TWICE in a formula, first by a numeric operation and then by
+#      something that tells a blank from 0 (and the other way round): the second reader sees what the first one saw
+def twice_cases(tier):
+    elems = [BLANK, N(0), N(-3), T(''), T('tx'), B(True), B(False), ERR]
+    for tplk in TWICE:
+        for perm in itertools.permutations(range(len(elems)), 3):
+            if tier == 'quick' and perm[0] > 3:
+                continue
+            for orient in ('col', 'row'):
+                yield ['twice', tplk, [list(elems[i]) for i in perm], orient]
+
+
+def _k(e):
+    return 'blank' if e == BLANK else e[0]
+
+
+TWICE = {
+    # template, scalar expectation of one element
+    'isblank-after-add': ('=IF(ISBLANK(%s),"blank",%s+1)', lambda e: T('blank') if e == BLANK else None),
+    'add-then-isblank': ('=IF(%s+1>0,IF(ISBLANK(%s),"b","n"),"neg")', None),
+    'add-then-concat': ('=IF(%s*2>=0,%s&"x","neg")', None),
+    'abs-then-eq-empty': ('=IF(ABS(%s)>=0,%s="","-")', None),
+    'neg-then-count': ('=IF(-%s<=0,ISNUMBER(%s),ISTEXT(%s))', None),
+}
+
+
+def run_twice(case):
+    from xl.evalcell import eval_formula
+    _, tplk, vec, orient = case
+    vec = [tuple(v) for v in vec]
+    tpl, _ = TWICE[tplk]
+    n = len(vec)
+    ref = 'F1:F%d' % n if orient == 'col' else 'F1:%s1' % col(n - 1)
+    tbl = [[v] for v in vec] if orient == 'col' else [list(vec)]
+    txt = tpl.replace('%s', ref)
+    got = eval_formula(txt, {ref: ('arr', tbl)}, ref=dest((n, 1) if orient == 'col' else (1, n)), scalar=False)
+    # element by element: the same formula on a one-cell sheet, every use of the range replaced by a fresh literal or its own cell
+    def one(e):
+        inputs, parts = {}, []
+        for k in range(tpl.count('%s')):
+            cell = 'F%d' % (1 + 10 * k)
+            inputs[cell] = e
+            parts.append(cell)
+        return eval_formula(tpl % tuple(parts), inputs)
+    exp = [[one(e)] for e in vec] if orient == 'col' else [[one(e) for e in vec]]
+    if has_bad(exp):
+        return result(1 + n, ['twice:%s:scalar-escape' % tplk])
+    fails = []
+    if not same(got, exp):
+        fails.append(Fail('lift-escape' if isinstance(got, tuple) else 'lift-wrong', got=got, exp=exp, fn=tplk, shapes=orient, classes='range-read-twice', result=orient, mode='rng',
+                          variant='twice', varg=None, formula=txt))
+    return result(1 + n, outcome('twice', tplk, got), fails)
+
+
 # ---- driver ---------------------------------------------------------------------
 def run_case(case):
-    return {'lift': run_lift, 'fit': run_fit, 'count': run_count, 'compose': run_compose, 'mixed': run_mixed}[case[0]](case)
+    return {'lift': run_lift, 'fit': run_fit, 'count': run_count, 'compose': run_compose, 'mixed': run_mixed, 'twice': run_twice}[case[0]](case)
 
 
 def run(ctx):
@@ -494,6 +562,7 @@ def run(ctx):
     ctx.explore(run_case, count_cases(ctx.tier), chunksize=64, label='count')
     ctx.explore(run_case, compose_cases(ctx.tier), chunksize=16, label='compose')
     ctx.explore(run_case, mixed_cases(ctx.tier), chunksize=64, label='mixed_kinds')
+    ctx.explore(run_case, twice_cases(ctx.tier), chunksize=64, label='range_read_twice')
     return {'max_dim': 3 if ctx.tier == 'quick' else 4, 'operators': len(BIN) + len(UNA),
             'functions': len(FUNCS) + (len(FUNCS4) if ctx.tier == 'thorough' else 0),
             'oracle_audit': {k: v for k, v in audit.items() if k != 'disagreements'}}
